@@ -72,6 +72,8 @@ def install(world: dict) -> dict:
         root.setLevel(logging.DEBUG)
     elif lg == "critical":
         logging.disable(logging.CRITICAL)
+    elif lg == "untouched":
+        pass
     else:
         # no handler configured: python's lastResort handler would write WARNINGs to stderr
         root.addHandler(logging.NullHandler())
